@@ -4,6 +4,7 @@
 
 package socketace
 
+//@ ghost G_snap_upgrade_header() string
 //@ ghost G_hostonly(s interface{}) bool
 //@ ghost G_istls(c interface{}) bool
 //@ ghost G_snap_skipverify(c interface{}) bool
@@ -154,6 +155,8 @@ package socketace
 //@   ensures err == nil ==> sar.Headers != nil                                   :headers_available_after_success
 
 //@ func NewServerConnection
+// C15: no package-level lock is held across a call that waits for this peer (zero-annotation obligation lock.blocking)
+//@   property C15
 //@   property C06, C04
 //@   safe
 //@   ensures err == nil ==> result != nil && result.Connection != nil                                 :session_only_with_connection
@@ -176,6 +179,8 @@ package socketace
 //@   loop 2 invariant negotiatedVersion == ""
 
 //@ func (sc *ServerConnection) handshake
+// C15: no package-level lock is held across a call that waits for this peer (zero-annotation obligation lock.blocking)
+//@   property C15
 //@   property C06, C04
 //@   safe
 //@   requires conn != nil && conn.Reader != nil && conn.Connection != nil
@@ -186,6 +191,8 @@ package socketace
 //@   callsite negotiateVersion#1 (v string) assert v == "" || memberStr(SupportedProtocolVersions, v)          :only_a_supported_version_is_adopted
 
 //@ func (sc *ServerConnection) upgrade
+// C15: no package-level lock is held across a call that waits for this peer (zero-annotation obligation lock.blocking)
+//@   property C15
 //@   property C06, C04
 //@   safe
 //@   requires conn != nil && conn.Reader != nil && conn.Connection != nil
@@ -194,6 +201,12 @@ package socketace
 //@   ensures err == nil && sc.secure == old(sc.secure) ==> spec_sameslice(sc.securityTech, old(sc.securityTech))   :status_changes_only_by_upgrade
 //@   ensures old(sc.secure) ==> sc.secure
 //@   ensures err == nil ==> result != nil                                                              :session_only_with_connection
+// the upgrade request must name the protocol AND the negotiated version: the value of its Upgrade header (snapshot
+// at the point where it is read for the check) is exactly "socketace/" + the negotiated version at all three places
+//@   callsite Get#2 (v string) assume spec_sameslice(G_snap_upgrade_header(), v) "ghost snapshot: the value of the request's Upgrade header as read for the check"
+//@   callsite NewNamedConnection#1 () assert G_snap_upgrade_header() == "socketace/" + sc.negotiatedVersion      :session_only_for_the_matching_upgrade_token
+//@   callsite NewNamedConnection#2 () assert G_snap_upgrade_header() == "socketace/" + sc.negotiatedVersion      :session_only_for_the_matching_upgrade_token
+//@   callsite NewNamedConnection#3 () assert G_snap_upgrade_header() == "socketace/" + sc.negotiatedVersion      :session_only_for_the_matching_upgrade_token
 //@   callsite NewNamedConnection#1 (nc *streams.NamedConnection, request *Request, response *Response) assert request.Method == "GET" && response.StatusCode == 101    :session_only_after_a_get_upgrade_answered_101
 //@   callsite NewNamedConnection#2 (nc *streams.NamedConnection, request *Request, response *Response) assert request.Method == "GET" && response.StatusCode == 101    :session_only_after_a_get_upgrade_answered_101
 //@   callsite NewNamedConnection#3 (nc *streams.NamedConnection, request *Request, response *Response) assert request.Method == "GET" && response.StatusCode == 101    :session_only_after_a_get_upgrade_answered_101
